@@ -35,6 +35,14 @@ def run(tier, seed):
             p["runs"] = runs
             loads += sum(1 for b in p["blocks"] for s in b["stmts"] if s["op"] == "aload")
             ps.append(p)
+        if k == 0:      # fixed regression programs (minimised replays of earlier findings, with their own configurations)
+            import os
+            rd = os.path.join(vlib.ROOT, "tools", "regress")
+            for j, f in enumerate(sorted(os.listdir(rd))):
+                if f.startswith("c14_"):
+                    q = dict(json.load(open(os.path.join(rd, f)))["case"]["program"])
+                    q["id"] = 900000 + j
+                    ps.append(q)
         viols, merged, _ = progsound.explore(ck, "b%d" % k, ps, box=2, univ=12)
         ck.cov["distinct_nontrivial"] += sum(1 for p in merged for r in p["runs"] if r["err"] == 0 and
                                              any(o["bot"] == 0 and o["top"] == 0 for o in r["post"]))
